@@ -54,16 +54,19 @@ class Tol:
     def __init__(self, rel, floor):
         self.rel, self.floor = rel, floor
 
-    def close(self, a, b):
+    def close(self, a, b, growth=1.0):
         if a == b or (math.isnan(a) and math.isnan(b)):
             return True
         if math.isnan(a) or math.isnan(b) or math.isinf(a) or math.isinf(b):
             return False
-        return abs(a - b) <= self.rel * max(abs(a), abs(b)) + self.floor
+        return abs(a - b) <= growth * self.rel * max(abs(a), abs(b), self.floor)
 
 
-TOL_MODEL = Tol(2.0 ** -18, 2.0 ** -22)   # implementation vs model (float32 emulation)
-TOL_SPEC = Tol(2.0 ** -11, 2.0 ** -14)    # implementation vs textbook equations evaluated in float32
+# |a-b| <= rel * max(|a|, |b|, 1): relative for large values, absolute below 1 (the data are O(1);
+# differences come from the summation order of the clipping norm and, for the specification,
+# from the different association of the textbook formulas, and accumulate over a history)
+TOL_MODEL = Tol(2.0 ** -18, 1.0)   # implementation vs model (float32 emulation)
+TOL_SPEC = Tol(2.0 ** -11, 1.0)    # implementation vs textbook equations evaluated in float32
 
 
 class StreamCmp:
@@ -76,11 +79,23 @@ class StreamCmp:
     def __init__(self, tol):
         self.tol = tol
         self.rounded = False
+        self.updates = 0
         self.exact_values = 0
+        self.exact_misses = 0
         self.max_dev = 0.0
 
     def reset(self):
         self.rounded = False
+        self.updates = 0
+
+    def growth(self):
+        """rounding differences accumulate along a history: the tolerance grows linearly with the
+        number of update() calls made so far (factor 1 + updates/32)"""
+        return 1.0 + self.updates / 32.0
+
+    def note(self, line):
+        if line.startswith("update "):
+            self.updates += 1
 
     def num(self, a, b):
         pa, pb = parse_num(a), parse_num(b)
@@ -94,16 +109,19 @@ class StreamCmp:
             if math.isnan(pa[1]) or math.isinf(pa[1]):
                 return False
             if not self.rounded and representable(pb[1]):
-                self.exact_values += 1
-                return Fraction(pa[1]) == pb[1]
+                if Fraction(pa[1]) == pb[1]:
+                    self.exact_values += 1
+                    return True
+                # an intermediate result that is not printed was rounded by the implementation
+                self.exact_misses += 1
             self.rounded = True
-            return self.tol.close(pa[1], float(pb[1]))
+            return self.tol.close(pa[1], float(pb[1]), self.growth())
         if pa[0] == "x" and pb[0] == "x":
             if a == b:
                 return True
-            ok = self.tol.close(pa[1], pb[1])
+            ok = self.tol.close(pa[1], pb[1], self.growth())
             if ok and not (math.isnan(pa[1]) or math.isnan(pb[1])):
-                d = abs(pa[1] - pb[1]) / max(abs(pa[1]), abs(pb[1]), 2.0 ** -10)
+                d = abs(pa[1] - pb[1]) / max(abs(pa[1]), abs(pb[1]), 1.0)
                 self.max_dev = max(self.max_dev, d)
             return ok
         return False
@@ -112,6 +130,14 @@ class StreamCmp:
         if impl == other:
             return True
         wi, wo = impl.split(" "), other.split(" ")
+        if not self.rounded and "q" in other:
+            # a rational of this line that is not a float32: the implementation rounded somewhere in this step
+            for b in wo:
+                if "=" in b:
+                    for t in b.split("=", 1)[1].split(","):
+                        pb = parse_num(t)
+                        if pb is not None and pb[0] == "q" and not representable(pb[1]):
+                            self.rounded = True
         if len(wi) != len(wo):
             return False
         for a, b in zip(wi, wo):
@@ -173,6 +199,7 @@ class Runner:
                 self.model_cmp.reset(); self.spec_cmp.reset()
                 failed = False
             im, mo, sp = impl[i], model[i], spec[i]
+            self.model_cmp.note(line); self.spec_cmp.note(line)
             if im == "skipped":
                 impl2.append(im); model2.append(mo); continue
             # verdict against the specification (independent of the model)
@@ -242,6 +269,7 @@ def fails_on_impl(lines, use_spec=True, judge_line=None):
     for i, line in enumerate(lines):
         if line.startswith("mode "):
             c.reset()
+        c.note(line)
         if impl[i] == "skipped":
             break
         if impl[i].startswith("crash") or not c.line(impl[i], spec[i]):
@@ -268,3 +296,19 @@ def obligations_with_gen(chk, mods, generate, out_path):
         except OSError:
             pass
     return res
+
+
+def report_broken(chk):
+    """Obligations that no longer check and no failing input was found: one
+    report per distinct reason."""
+    broken = chk.broken_obligations()
+    if not broken or chk.violations:
+        return
+    by = {}
+    for name, why in broken.items():
+        by.setdefault(why, []).append(name)
+    for why, names in sorted(by.items()):
+        names = sorted(names)
+        chk.report("obligation:" + ",".join(names)[:300],
+                   "theorem%s %s no longer check%s: %s" % ("s" if len(names) > 1 else "", ", ".join(names), "" if len(names) > 1 else "s", why),
+                   {"theorems": names, "reason": why, "log": (chk.oblig or {}).get("log_tail", "")[-1500:]}, found_input=False)
